@@ -52,17 +52,19 @@ type answerPlan struct {
 }
 
 type clientScript struct {
-	Answers       []answerPlan // by arrival index; missing entries: immediate answer
-	ExitAfterRead int          // >=0: the process exits right after reading that many requests
-	ExitNonZero   bool         // exit status when it exits (early or at EOF)
-	StopReadingAt int          // >=0: stops reading stdin after that many requests (and stalls)
-	IgnoreEOF     bool         // does not exit when stdin is closed
-	Fault         int          // cf*
-	FaultAfter    int          // message faults: injected after this many answers were written
-	CutAt         int          // cfCut: absolute output byte offset
-	PrematureName string       // cfPremature
-	AbortDelayMs  int          // how long the process takes to die after its context is cancelled
-	SerialBase    int
+	Answers        []answerPlan // by arrival index; missing entries: immediate answer
+	ExitAfterRead  int          // >=0: the process exits right after reading that many requests
+	ExitNonZero    bool         // exit status when it exits (early or at EOF)
+	StopReadingAt  int          // >=0: stops reading stdin after that many requests (and stalls)
+	IgnoreEOF      bool         // does not exit when stdin is closed
+	Fault          int          // cf*
+	FaultAfter     int          // message faults: injected after this many answers were written
+	CutAt          int          // cfCut: absolute output byte offset
+	PrematureName  string       // cfPremature: answered while request number FaultAfter is only partly read
+	PrematureBytes int          // cfPremature: bytes (0..4) of that request's length prefix read before answering
+	PrematureExit  bool         // cfPremature: the process exits right after that answer
+	AbortDelayMs   int          // how long the process takes to die after its context is cancelled
+	SerialBase     int
 }
 
 // writtenAnswer is a complete answer the scripted client got onto its stdout.
@@ -81,6 +83,7 @@ type simClient struct {
 	name string
 
 	// observations (written by the client's tasks, read by the oracle)
+	plans       []answerPlan // fate applied to each received request
 	received    []*conformancev1.ClientCompatRequest
 	receivedAt  []int // scheduler step
 	written     []writtenAnswer
@@ -98,6 +101,10 @@ type simClient struct {
 
 	// answerFn, if set, builds the answer for a name (scenario specific)
 	answerFn func(name string, serial int) *conformancev1.ClientCompatResponse
+	// planFn, if set, decides the fate of a request (instead of Answers by arrival index)
+	planFn func(req *conformancev1.ClientCompatRequest) answerPlan
+	// beforeAnswer, if set, runs in the responder task right before the answer is written
+	beforeAnswer func(name string)
 	// onReceive, if set, is called for every request read
 	onReceive func(n int, req *conformancev1.ClientCompatRequest)
 
@@ -291,11 +298,6 @@ func (c *simClient) impl(ctx context.Context, _ []string, in io.ReadCloser, out,
 			c.die()
 		}
 	})
-	if c.sc.Fault == cfPremature && c.sc.FaultAfter == 0 {
-		c.faulted = true
-		c.faultFired[cfNames[cfPremature]]++
-		c.writeAnswer(c.sc.PrematureName, false, true)
-	}
 	status := func() error {
 		if c.sc.ExitNonZero {
 			return errors.New("scripted client: exit status 1")
@@ -320,7 +322,27 @@ func (c *simClient) impl(ctx context.Context, _ []string, in io.ReadCloser, out,
 			return c.deathStatus(status)
 		}
 		var hdr [4]byte
-		if _, err := simrt.ReadFull(in, hdr[:], "simclient.read"); err != nil {
+		got := 0
+		if c.sc.Fault == cfPremature && !c.faulted && len(c.received) == c.sc.FaultAfter {
+			// an over-eager client: answers a test before it has read the
+			// request (the sender may be blocked in the middle of writing it)
+			if c.sc.PrematureBytes > 0 {
+				n, err := simrt.ReadFull(in, hdr[:c.sc.PrematureBytes], "simclient.read")
+				got = n
+				if err != nil {
+					break
+				}
+			}
+			c.faulted = true
+			c.faultFired[cfNames[cfPremature]]++
+			c.writeAnswer(c.sc.PrematureName, false, true)
+			if c.sc.PrematureExit {
+				c.faultFired["exit-after-premature-answer"]++
+				c.die()
+				return status()
+			}
+		}
+		if _, err := simrt.ReadFull(in, hdr[got:], "simclient.read"); err != nil {
 			break
 		}
 		buf := make([]byte, binary.BigEndian.Uint32(hdr[:]))
@@ -340,6 +362,10 @@ func (c *simClient) impl(ctx context.Context, _ []string, in io.ReadCloser, out,
 			c.onReceive(len(c.received), req)
 		}
 		plan := c.planFor(idx)
+		if c.planFn != nil {
+			plan = c.planFn(req)
+		}
+		c.plans = append(c.plans, plan)
 		if plan.Never {
 			c.faultFired["never-answered"]++
 			continue
@@ -367,6 +393,9 @@ func (c *simClient) impl(ctx context.Context, _ []string, in io.ReadCloser, out,
 					tm.Stop()
 					return
 				}
+			}
+			if c.beforeAnswer != nil && !c.dead {
+				c.beforeAnswer(name)
 			}
 			c.writeAnswer(name, plan.AsError, false)
 		})
